@@ -21,7 +21,7 @@ theorem api_events :
     Gen.Sync.progs.lookup "Lookup" = some [.rlock, .deferRUnlock, .callLookup] ∧
     Gen.Sync.progs.lookup "SetLimit" = some [.atomicStoreLimit] ∧
     Gen.Sync.progs.lookup "Extend" = some [.callExtend] ∧
-    Gen.Sync.progs.lookup "MIME.Extend" = some [.lock, .writeField "m" "children", .readField "m" "children", .unlock] := by
+    Gen.Sync.progs.lookup "MIME.Extend" = some [.lock, .writeField "recv" "children", .readField "recv" "children", .unlock] := by
   decide
 
 /-- **regenerated obligation**: the functions that run inside the callers' critical sections
@@ -33,7 +33,7 @@ theorem callees_read_only :
     Gen.Sync.progs.lookup "MIME.lookup" = some [.readChildren] ∧
     Gen.Sync.progs.lookup "MIME.flatten" = some [.readChildren] ∧
     Gen.Sync.progs.lookup "MIME.clone" = some [] ∧
-    Gen.Sync.progs.lookup "MIME.cloneHierarchy" = some [.writeField "lastChild" "parent"] ∧
+    Gen.Sync.progs.lookup "MIME.cloneHierarchy" = some [.writeField "local" "parent"] ∧
     Gen.Sync.progs.lookup "MIME.Is" = some [] ∧ Gen.Sync.progs.lookup "MIME.String" = some [] ∧
     Gen.Sync.progs.lookup "MIME.Parent" = some [] ∧ Gen.Sync.progs.lookup "MIME.Extension" = some [] ∧
     Gen.Sync.progs.lookup "EqualsAny" = some [] := by
